@@ -177,6 +177,7 @@ def gen_item(rng, names=None, want_enum=None, allow_attrs=True, plain=False, abs
             c += [f'::core::option::Option<::std::boxed::Box<Self>>', f'{VEC}<Self>']
         if has_T:
             c += [T, T, f'{OPT}<{T}>', f'({T}, i8)', f'::core::marker::PhantomData<{T}>', f'::core::option::Option<{T}>',
+                  f'::core::marker::PhantomData<(Self, {T})>',   # mentions a parameter *and* `Self` (written out in the Eq check)
                   f'::core::option::Option<::core::option::Option<{T}>>']
             if not copy:
                 c += [f'{VEC}<{T}>', f'{BOX}<{T}>', f'::std::vec::Vec<{T}>']
